@@ -254,6 +254,26 @@ theorem getAll_keys_distinct {s : State} (hr : Reachable s) (now : Nat) :
     rw [hw q (List.mem_cons_self), hw p (List.mem_cons_of_mem _ hp)] at this
     exact this
 
+private theorem run_snoc (s : State) (ops : List Op) (op : Op) :
+    (run s (ops ++ [op])).1 = (step (run s ops).1 op).1 := by
+  induction ops generalizing s with
+  | nil => simp [run]
+  | cons o rest ih => simp only [List.cons_append, run]; exact ih _
+
+/-- reachability is closed under every operation -/
+theorem reachable_step {s : State} (hr : Reachable s) (op : Op) : Reachable (step s op).1 := by
+  obtain ⟨ops, rfl⟩ := hr
+  exact ⟨ops ++ [op], (run_snoc empty ops op).symm⟩
+
+/-- an accepted revocation is listed by every enumeration until it expires, and once it has
+    expired by none -/
+theorem accepted_listed_iff {s : State} (hr : Reachable s) (now t : Nat) (r : Rev)
+    (h : (insert s now r).2 = true) :
+    r ∈ getAll (insert s now r).1 t ↔ t ≤ expMs r := by
+  have hr' : Reachable (insert s now r).1 := reachable_step hr (.insert now r)
+  rw [mem_getAll_iff hr' t r, insert_accepted_effect s now t r h]
+  by_cases ht : t ≤ expMs r <;> simp [ht]
+
 /-- T3: the decisions of `memRevCache.Insert` as they stand in the source (regenerated on every
     run) are the three the model transcribes, in this order: reject when the remaining lifetime
     is not positive, store when nothing live is cached, replace only when strictly newer -/
